@@ -939,6 +939,8 @@ def run(ctx, res):
     rule_include(ctx, res)
     rule_component(ctx, res)
     rule_require(ctx, res)
+    from . import c12eval
+    c12eval.report(ctx, res)
     rule_locate(ctx, res)
     rule_verbatim(ctx, res)
     rule_other_opens(ctx, res)
